@@ -237,7 +237,15 @@ def _walk_lark_tree(op, *, data_def=None) -> data_algebra.expr_rep.Term:
                 return getattr(left, op_name)(data_algebra.expr_rep.Value(False))
             if r_op.data in ["list", "tuple", "set"]:  # any collection
                 assert len(r_op.children) == 1
-                op_values = [_r_walk_lark_tree(vi) for vi in r_op.children[0].children]
+                contents = r_op.children[0]
+                if isinstance(contents, lark.tree.Tree) and (
+                    contents.data in ["tuplelist_comp", "set_comp"]
+                ):
+                    raw_values = contents.children
+                else:
+                    # grammar inlines a single element: the child is the element itself
+                    raw_values = [contents]
+                op_values = [_r_walk_lark_tree(vi) for vi in raw_values]
                 # check all args are values, not None, same type
                 assert all(
                     [isinstance(vi, data_algebra.expr_rep.Value) for vi in op_values]
